@@ -268,6 +268,9 @@ def check_state_writers(ctx: Ctx):
     classes = []
     for r in roots:
         classes += r.all_subclasses()
+    # the aggregator is shared by worker threads and re-created in worker processes: whatever it
+    # would remember between calls is per process and stale in every other one
+    classes.append(prog.cls("panoptica_aggregator:Panoptica_Aggregator"))
     n = 0
     for c in sorted(set(classes), key=lambda c: c.qual):
         for m in c.methods.values():
@@ -314,7 +317,10 @@ def check_param_aliasing(ctx: Ctx):
             key = f"{f.qual}:{name}"
             ok = key in ALIAS_TABLE
             params = [p.name for p in f.call_params]
-            src = [params[i] if 0 <= i < len(params) else "self" for i in org]
+            src = [params[i] if 0 <= i < len(params) else ("module-level state" if i == -2 else "self") for i in org]
+            if -2 in org:
+                ctx.decide("R15.7", f, node, f"{f.qual}:{name}:{how}", "no in-place write into a module-level container (it is shared by every object of the process)", ok or f.qual in GLOBAL_TABLE, {"statement": norm(node)[:90], "aliases": src})
+                continue
             ctx.decide("R15.8", f, node, f"{f.qual}:{name}:{how}", "no in-place write into an array that may be the caller's", ok, {"statement": norm(node)[:90], "may_alias_parameter": src, "reason": ALIAS_TABLE.get(key)})
     ctx.ok("R15.8", None, None, "alias-effect:package", f"may-alias/effect analysis of {n_funcs} functions: no unlisted in-place write into a received array", {"functions": n_funcs, "return_summaries": sum(1 for v in af.summary.values() if v)}, nontrivial=False)
     if n_funcs < 100:
